@@ -37,6 +37,18 @@ func WorkerLoop(p *PropDef, tier string, seed int64) {
 			Replays []*ReplayFile `json:"replays,omitempty"`
 		}
 		o := outT{CaseResult: res}
+		// a watchdog verdict depends on wall-clock time and therefore on machine load: it is only a
+		// CANDIDATE here; the driver re-executes the case alone, at the end, before it is reported
+		hang := false
+		for _, v := range res.Violations {
+			if strings.HasPrefix(v.Sig, "hang") || strings.Contains(v.Sig, "/hang") {
+				hang = true
+			}
+		}
+		if hang {
+			res.HangCandidate = true
+			res.Violations = nil
+		}
 		if res.Infra == "" && len(res.Violations) > 0 {
 			seen := map[string]bool{}
 			for _, v := range res.Violations {
